@@ -198,6 +198,13 @@ package gedcom
 //@ func DateNode.Similarity
 //@   props C12
 //@   ensures neutral: implies(node == nil || node2 == nil, result == 0.5)
+// two dates that are there are compared by their ranges, whatever they say -
+// the same way in both directions (nothing but a MISSING date is neutral)
+//@   ghost nSim int = 0
+//@   ghost sim real = 0.0
+//@   oncall DateRange.Similarity check with-the-given-margin: arg2 == maxYears
+//@   oncall DateRange.Similarity do nSim = nSim + 1; sim = result
+//@   ensures both-present-compares-the-ranges: implies(node != nil && node2 != nil, nSim == 1 && result == sim)
 //@   ensures range: implies(maxYears > 0.0, 0.0 <= result && result <= 1.0)
 //
 //@ func SurroundingSimilarity.WeightedSimilarity
@@ -1335,7 +1342,7 @@ package gedcom
 //@   oncall NewDateRange check ends-as-parsed: arg0.Day == sD && arg0.Month == sM && arg0.Year == sY && arg0.Constraint == sC && arg1.Day == eD && arg1.Month == eM && arg1.Year == eY && arg1.Constraint == eC
 //@   ensures two-ends: n == 2
 //@ func NewDateRange
-//@   props C04
+//@   props C04 C06
 //@   ensures ends: result.start.Day == start.Day && result.start.Month == start.Month && result.start.Year == start.Year && result.start.Constraint == start.Constraint && result.end.Day == end.Day && result.end.Month == end.Month && result.end.Year == end.Year && result.end.Constraint == end.Constraint
 //@   ensures flags: !result.start.IsEndOfRange && result.end.IsEndOfRange
 
@@ -1732,6 +1739,21 @@ package gedcom
 //@   ensures merges-iff-similar: implies(nSim == 1, nMerge == ite(w > minAt, 1, 0))
 //@   ensures nil-unless-merged: implies(nMerge == 0, isnil(result))
 //@   ensures hands-back-the-merge: implies(nMerge == 1, result == m)
+
+// C08 (both inputs are walked): the diff is built by walking the left input as
+// the left side and then the right input as the right side, on the same root
+// entry, which is what is returned - there is no other way for a node to get
+// into a Right slot.
+//@ func CompareNodes
+//@   props C08
+//@   ghost nT int = 0
+//@   ghost root int = 0
+//@   opaque NodeDiff.traverse
+//@   oncall NodeDiff.traverse when nT == 0 check left-input-as-left: arg1 == left && arg2
+//@   oncall NodeDiff.traverse when nT == 0 do root = arg0
+//@   oncall NodeDiff.traverse when nT == 1 check right-input-as-right-on-the-same-entry: arg0 == root && arg1 == right && !arg2
+//@   oncall NodeDiff.traverse do nT = nT + 1
+//@   ensures both-walked: nT == 2 && result == root
 
 // C08 (provenance): a node that arrives from the left side can only fill the
 // Left slot of an entry, one from the right side only the Right slot, and a
